@@ -49,6 +49,11 @@ def configs(tier, seed):
             cfgs.append(dict(name=f"p={p} mults={pat} nodes={nn} pol dim={dim}", p=p, mults=pat, nn=nn, rational=False, dim=dim))
             if ((1 <= p <= 2 and nn <= 2) or (p == 3 and nn == 1 and tier == "thorough")) and len(pat) <= 3 + (nn == 1):
                 cfgs.append(dict(name=f"p={p} mults={pat} nodes={nn} rat dim=0", p=p, mults=pat, nn=nn, rational=True, dim=0))
+    # int-typed data (Python ints and numpy integer arrays): a rational curve with int weights and int control points on Fraction knots
+    for k, (p, pat, ivals) in enumerate([(2, [3, 1, 3], [0, 1, 2]), (1, [2, 1, 2], [-1, 0, 3]), (3, [4, 4], [0, 2])]):
+        for how in ("python ints", "numpy ints"):
+            cfgs.append(dict(name=f"int data p={p} mults={pat} knots={ivals} rat ({how})", p=p, mults=pat, nn=1, rational=True, dim=0,
+                             intdata=how, ivals=ivals))
     return cfgs
 
 
@@ -83,6 +88,32 @@ def body(env, cfg):
     from compmec.nurbs import heavy
 
     p, mults = cfg["p"], cfg["mults"]
+    if cfg.get("intdata"):
+        t = [Fraction(v) for v in cfg["ivals"]]   # (int knots make the library divide ints: floats, compared elsewhere with tolerance)
+        kv = KV(t, mults)
+        P = [int((7 * i * i - 3 * i) % 11 - 4) for i in range(kv.n)]
+        W = [int(1 + (5 * i + 2) % 4) for i in range(kv.n)]
+        node = env.real("n0")
+        env.assume((node >= t[0]) & (node <= t[-1]))
+        separated(env, [node], t)
+        if env.sym:
+            env.patch(heavy, "find_roots", lambda *a, **k: ())
+        if cfg["intdata"] == "numpy ints":
+            curve = Curve(list(kv.U), np.array(P), np.array(W))
+        else:
+            curve = Curve(list(kv.U), list(P), list(W))
+        exp = _expected(kv, [node], True)
+        try:
+            curve.knot_insert([node])
+        except ValueError:
+            env.holds("a valid request (multiplicities <= degree+1) is carried out", exp is None or exp.p != p)
+            return
+        if exp is None or exp.p != p:
+            env.fail("knot_insert accepted a request that pushes a multiplicity above degree+1")
+            return
+        env.eq("knot vector is the sorted multiset union", list(curve.knotvector), list(exp.U))
+        same_function(env, kv, P, W, exp, list(curve.ctrlpoints), list(curve.weights), 0, "knot_insert (int data)")
+        return
     t = env.ordered("t", len(mults), GAP)
     kv = KV(t, mults)
     P = make_points(env, "P", kv.n, cfg["dim"])
